@@ -59,6 +59,8 @@ TFix ==
      IN /\ fails' = fails
              \cup When(e.raised = "", IF plain THEN "C14_FixRaised" ELSE "C17_PreviewRaised")
              \cup When(~known \/ e.raised # "" \/ FixOnInvalid(e.obj, res), "C14_InvalidFixNoneFalse")
+             \* (on an invalid pair the answer IS (None, False) - with any arguments, so it is an answer, not an exception)
+             \cup When(~known \/ objs[e.obj].valid \/ e.raised = "", "C14_InvalidFixNoneFalse")
              \cup When(~known \/ e.raised # "" \/ FixPure(e.obj, e.mode, e.vr, res),
                        IF plain THEN "C15_FixPure" ELSE "C17_SameResult")
              \cup When(FixKeepsObject(e.sameObj), "C15_ObjectAltered")
